@@ -322,8 +322,14 @@ class Gen:
 
 
 # ---------------------------------------------------------------------------------------------------------- rendering
+NON_ASCII = ["\u2550\u2550\u2550 banner \u2550\u2550\u2550", "gr\u00fc\u00dfe \u2014 na\u00efve", "\u00e9", "\U0001f600 ok", "\u212a\u00df\u00e4"]
+
+
 def block_comment(rng, allow_nl):
     body = rng.choice(["c", " note ", "lda #1", " x /* nested */ y ", "*", " / ", "}", "**", " a /* b /* c */ d */ e ", "/**/", "x/*y*/", "/*/**/*/"])
+    if rng.random() < 0.3:
+        # multi-byte UTF-8 text: byte and character counts differ
+        body = rng.choice([" %s ", "%s", "/* %s */", " a /* %s */ b "]) % rng.choice(NON_ASCII)
     if allow_nl and rng.random() < 0.3:
         body += "\n more"
     return "/*" + body + "*/"
@@ -364,7 +370,7 @@ def trivia(rng, kind, need, style):
         elif k < 0.55:
             out += block_comment(rng, True)
         elif k < 0.7:
-            out += "//" + rng.choice(["", " c", " lda #1 ; x", "/ doc", " }"]) + eol
+            out += "//" + rng.choice(["", " c", " lda #1 ; x", "/ doc", " }", " " + rng.choice(NON_ASCII)]) + eol
             have_nl = True
         else:
             out += (rng.choice(["\n", "\r\n"]) if style == "mixed" else eol)
